@@ -1640,7 +1640,7 @@ namespace Dune {
     }
 
     // No duplicate entries allowed
-    assert(iter_->localIndexPair().global() != global);
+    assert(iter_==end_ || *giter_ != global);
     iter_.insert(index);
     giter_.insert(global);
 
